@@ -103,7 +103,7 @@ def monC07 (h : Hist) : Option String :=
         let x ← h.ex ri
         -- "after" / "before" the unsafe request: by position in a sequential history, by (strict) instants
         -- in a history with concurrent groups
-        let conc := h.cls == "concurrent" || h.cls == "inval-race"
+        let conc := h.cls == "concurrent" || h.cls == "inval-race" || h.cls == "reval-race"
         if (if conc then ri.n = rm.n || decide (x.res.t0 ≤ xm.res.t1) else decide (ri.n ≤ rm.n)) then none else
         if !(x.servedUnvalidated h) then none else
         let (j, _) ← x.token
